@@ -75,3 +75,7 @@ where
         _ = self.cons.push(data).await;
     }
 }
+
+#[cfg(all(transparencies_stretto_verif, any(kani, test)))]
+#[path = "/verif/harness/h_ring.rs"]
+mod verif_harness;
